@@ -1063,6 +1063,9 @@ func (i *c09Inst) Key() string {
 		}
 		b.WriteString("/")
 	}
+	// hidden state of the Table object itself (a cached count, a remembered pointer): reflective, so a field that
+	// a change adds is part of the key without touching this file
+	b.WriteString("#" + document.VerifShallowOf(i.t))
 	return b.String()
 }
 
